@@ -179,6 +179,10 @@ func checkC14(c *hx.Checker) {
 	// larger shapes: all ordered pairs
 	big := [][]int{{5, 1, 7}, {1, 6, 1}, {7}, {2, 5, 1, 7}, {6, 7}, {5, 6, 7}, {1, 1, 1, 1, 8}, {1, 1031}, {5, 1}, {4099}, {3, 1, 1367}}
 	add(ref.F32, big, big)
+	// large first operands against small ones whose element count happens to fit but whose extents do not, and against
+	// operands with surplus leading unit axes
+	fit := [][]int{{1000, 6, 4}, {4, 6}, {6, 4}, {24}, {1, 6, 4}, {256, 256}, {1, 1, 256}, {1, 256}, {256}, {1, 1, 1}, {2, 1, 256}, {300, 4, 6}}
+	add(ref.I64, fit, fit)
 	c.ParallelFor(len(jobs), func(i int) {
 		j := jobs[i]
 		bc := &bcastCase{ReplayKind: "bcast", Fn: j.fn, A: hx.ToTJ(ref.Distinct(j.dt, j.a)), B: hx.ToTJ(ref.Distinct(j.dt, j.b))}
